@@ -5,7 +5,7 @@ From YS Require Import Base.Sexp Num.F64 Yarn.Ast Yarn.Value Yarn.Eval Yarn.Brid
 Import ListNotations.
 
 Lemma gotype_eqb_refl t : gotype_eqb t t = true.
-Proof. unfold gotype_eqb. destruct (gk t); apply eqb_reflx. Qed.
+Proof. unfold gotype_eqb. destruct (gk t); apply N.eqb_refl. Qed.
 
 Lemma convert_arg_type t v g : convert_arg t v = Some g -> vtype g = t.
 Proof.
